@@ -5938,7 +5938,7 @@ void psX509FreeDNStruct(x509DNattributes_t *dn, psPool_t *allocPool)
     that doesn't succeed.  The 'authStatus' members may be examined for more
     information of where the authentication failed.
 
-    The 'authStatus' member of the issuerCert will be set to PS_FALSE
+    The 'authStatus' member of the issuerCert is left untouched
     since it will not be authenticated.
 
     The 'authStatus' members of the subjectCert structures will always
@@ -6025,7 +6025,8 @@ int32 psX509AuthenticateCert(psPool_t *pool, psX509Cert_t *subjectCert,
     }
     else
     {
-        issuerCert->authStatus = PS_FALSE;
+        /* The issuer is typically a member of a CA list shared by all
+           sessions using the same sslKeys_t: never write to it. */
         ic = issuerCert; /* Easy case of single subject and single issuer */
         sc = subjectCert;
     }
